@@ -738,6 +738,29 @@ fn graphs(c: &mut Cat, seed: u64, n_graphs: u64) {
             c.rep.violation(&format!("alloc|graph::process|{}_on_new_output_node_of_a_processed_graph", traffic_class(&d)), format!("2 nodes a,b with 3 parallel edges a->b, Processor::with_capacity(2): process(a) twice, then process(b) made {} allocations / {} reallocations / {} frees", d.allocs, d.reallocs, d.deallocs), "entry=graphB:min:2".to_string());
         }
     }
+    // wide fan-in, steady state: one Sum node fed by W others (W across the 256 / 1024 / 4096 /
+    // 65536 thresholds a bounded or shrunk input list would have); every call after the first
+    // with the same request must leave the heap alone
+    for w in [300usize, 1500, 5000, 70_000] {
+        let mut g: Graph<NodeData<BoxedNode>, ()> = Graph::with_capacity(w + 1, w + 8);
+        let ids: Vec<NodeIndex> = (0..=w).map(|_| g.add_node(NodeData::new1(BoxedNode::new(Sum)))).collect();
+        for i in 0..w {
+            g.add_edge(ids[i], ids[w], ());
+        }
+        g.add_edge(ids[0], ids[w], ());
+        let mut p = Processor::<Graph<NodeData<BoxedNode>, ()>>::with_capacity(w + 1);
+        p.process(&mut g, ids[w]);
+        let before = alloc::snap();
+        for _ in 0..4 {
+            p.process(&mut g, ids[w]);
+        }
+        let d = alloc::snap().since(&before);
+        c.rep.eval(4);
+        if !d.is_zero_traffic() {
+            c.rep.violation("alloc|graph::process|steady_state_wide_fan_in", format!("Graph: one Sum node with {} incoming edges from {} nodes, Processor::with_capacity({}): after the first call, 4 more identical calls made {} allocations / {} reallocations / {} frees", w + 1, w, w + 1, d.allocs, d.reallocs, d.deallocs), format!("entry=graphW:{}", w));
+        }
+        c.rep.nontrivial(vmon::hash_combine(0x77, w as u64));
+    }
     let mut rng = Rng::derive(seed, &[77]);
     for gi in 0..n_graphs {
         let n = 1 + rng.usize_below(if gi % 10 == 0 { 64 } else { 12 });
